@@ -29,6 +29,6 @@ Eval vm_compute in C05_proved_ids.
 
 (* non-vacuity: a reference synced but not enumerated is rejected, an enumerated one accepted *)
 Example C05_obligation_discriminates :
-  refs_enumerated supported_versions (SSeq (SRef 7 []) (SRefArr 1 2 3 9 [] 4)) ([7], []) = false /\
-  refs_enumerated supported_versions (SSeq (SRef 7 []) (SRefArr 1 2 3 9 [] 4)) ([9; 7], []) = true.
+  refs_enumerated supported_versions (SSeq (SRef 7 []) (SSeq (SRefArrHead 1 2 3 9 [] 4) (SFor 5 (ESize 3 []) (SRef 9 [ILocal 5])))) ([7], []) = false /\
+  refs_enumerated supported_versions (SSeq (SRef 7 []) (SSeq (SRefArrHead 1 2 3 9 [] 4) (SFor 5 (ESize 3 []) (SRef 9 [ILocal 5])))) ([9; 7], []) = true.
 Proof. split; reflexivity. Qed.
